@@ -46,6 +46,12 @@ CHECKS["C06"] = dict(
     text="At every explored state (C01 alphabet plus real UpdateSnapshots runs, rejected commands, identity update, publisher removal) the serde view of every CertAuth, the TA proxy, the TA signer, the repository access aggregate and the repository content log as loaded by a fresh store equals the running instance's (masking exactly last_key_change / since), and an instance restarted on the log alone (snapshots removed) yields identical API views (CA info, configured ROAs, ASPA, BGPsec, child info, publisher files, repo stats); replay never fails or panics.",
     note=E1_NOTE)
 
+CHECKS["C05"] = dict(
+    engine="E4", category="model_checking", design="4/C05",
+    technique="bounded-exhaustive enumeration of request contents x CA states against a reference accept/refuse predicate; every request executed by the real CaManager on a forked copy of the state, with before/after comparison",
+    text="Every request of finite menus (all ROA deltas of <=2 / <=3 entries out of 11 additions and 3 removals covering implicit/explicit/invalid max length, unheld, v6, AS0, present with same/new comment, duplicates; ASPA set/delete/provider updates; BGPsec add with valid and corrupted CSR / delete; child add/update with six resource sets) against five CA states (empty, configured, configured-then-shrunk, aggregated, mid-roll): refusal exactly when the property text demands it, refused requests change nothing but one audit record (configuration, published-object set, repository, queue compared), accepted ones are applied as a whole.",
+    note="Reference predicate written from the property text; cases the text does not decide (duplicates inside a delta, no-op replacements, lenient provider-set updates, update of an existing child to nothing) are only checked for atomicity. Trusted: fork-copy isolation of the state.")
+
 NOT_YET = {
 }
 
